@@ -118,6 +118,7 @@ class Unit:
 
         def run(c):
             self.harness(c, f)
+            c.cover("exit-reachable(hypotheses-consistent)")       # vacuity guard: the path condition at the end of every completed path is satisfiable
 
         try:
             obls, npaths, aborted, notes = explore(run, max_paths=self.max_paths)
